@@ -16,6 +16,7 @@ import Nebula.Lemmas.WritebatchRun
 import Nebula.Lemmas.WritebatchProgress
 import Nebula.Lemmas.WritebatchDisable
 import Nebula.Lemmas.Sendmmsg
+import Nebula.Lemmas.WritebatchCover
 
 namespace Nebula.Props.C26
 open Nebula.Writebatch Nebula.Lemmas.Writebatch Nebula.Lemmas.Sendmmsg List
@@ -146,6 +147,29 @@ theorem disable_turns_flag_off (c : Cfg δ) (kern : Nat → Nat → Outcome) (pk
     (x : Call) (hm : x ∈ (writeBatch c kern pk gso ctl).calls) (hx : IsDisable x) :
     (writeBatch c kern pk gso ctl).gso = false :=
   run_disable_flag c kern pk gso 0 0 ctl (Nat.zero_le _) x hm hx
+
+/-- No silent loss.  With a non-empty scratch (`MaxWriteBatch = 128` in production) and a kernel that respects
+the contract: every datagram whose destination the socket can address is accounted for — it is in an entry
+the kernel accepted (`sentIdxs`), or it is in the first entry of a `sendFn` call that sent nothing and
+reported an errno (a per-entry rejection, which the code logs and skips; for the GSO-disabling EIO the run is
+offered again as single datagrams and accounted for once more).  If `WriteBatch` returns the no-progress error,
+this holds for every datagram before the first entry of the call that made no progress. -/
+theorem no_silent_loss (c : Cfg δ) (kern : Nat → Nat → Outcome) (hk : KernOK kern) (hn : 0 < c.n)
+    (pk : List (Pkt δ)) (gso : Bool) (ctl : Ctl) :
+    let r := writeBatch c kern pk gso ctl
+    (r.err = false → ∀ j (hj : j < pk.length), c.routable pk[j].dst = true → CovI r.calls j) ∧
+    (r.err = true → ∃ init last e, r.calls = init ++ [last] ∧ last.ents.head? = some e ∧
+      ∀ j (hj : j < pk.length), j < e.start → c.routable pk[j].dst = true → CovI r.calls j) := by
+  have h := run_cover c kern hk hn pk gso 0 0 ctl (Nat.zero_le _)
+  refine ⟨fun he j hj hr => h.1 he j hj (Nat.zero_le _) hr, fun he => ?_⟩
+  obtain ⟨init, last, e, h1, h2, h3⟩ := h.2 he
+  exact ⟨init, last, e, h1, h2, fun j hj hje hr => h3 j hj (Nat.zero_le _) hje hr⟩
+
+-- the hypothesis `0 < c.n` is needed: a writer without scratch drops the whole batch and reports success
+example :
+    let r := writeBatch (δ := Nat) { n := 0, maxSeg := 2, routable := fun _ => true } (scriptKern []) [⟨5, 0⟩] true []
+    r.written = 0 ∧ r.err = false ∧ r.calls.length = 0 := by
+  decide +kernel
 
 /-- every scripted kernel (any list of outcomes, any `sent` values) satisfies the contract — the
 hypothesis `KernOK` of the theorems above is satisfiable, by every script. -/
